@@ -1,6 +1,7 @@
 package harness
 
 import (
+	"fmt"
 	"strings"
 	"testing"
 
@@ -19,6 +20,9 @@ type c18Case struct {
 	Key     string       `json:"key"` // unique shared secret of the scope the connection comes from
 	Scripts []authScript `json:"scripts"`
 	Order   []int        `json:"order"`
+	// Level, if not 0: the calls also go to the reference logger (cmds/server/log) at this level and
+	// what it writes is searched too
+	Level int `json:"level,omitempty"`
 }
 
 func genC18(t *rapid.T) c18Case {
@@ -26,6 +30,7 @@ func genC18(t *rapid.T) c18Case {
 	c.Scope = pickServingScope(t, c.World)
 	c.Key = "K3y" + rapid.StringMatching(`[A-Za-z0-9]{16}`).Draw(t, "key_token")
 	c.Scripts, c.Order = genAuthHistory(t, c.World, c.Scope, 3)
+	c.Level = rapid.SampledFrom([]int{0, 10, 20, 30, 30, 31, 100}).Draw(t, "log_level")
 	// make every presented password a searchable token: wrong passwords become unique strings
 	for i := range c.Scripts {
 		for j := range c.Scripts[i].Pkts {
@@ -73,7 +78,7 @@ func runC18(t failer, c c18Case) (paths map[string]bool) {
 		violation(t, "C18", "logs", "C18:"+sig, c, format, args...)
 	}
 	w := c.world()
-	env, err := startRef(w.Cfg, refOpts{keychain: refsrv.MapKeychain(w.KeychainBytes()), recover: true})
+	env, err := startRef(w.Cfg, refOpts{keychain: refsrv.MapKeychain(w.KeychainBytes()), recover: true, realLog: c.Level})
 	if err != nil {
 		ev.Class("config-refused")
 		return
@@ -94,6 +99,16 @@ func runC18(t failer, c c18Case) (paths map[string]bool) {
 	elsewhere := map[string]bool{}
 	lastStatus := make([]byte, len(c.Scripts))
 	scan := func(when string) {
+		if env.realOut != nil {
+			ev.Class(fmt.Sprintf("reference-logger-level:%d", c.Level))
+			out := env.realOut.String()
+			for tok, what := range tokens {
+				if !sentElsewhere(elsewhere, tok) && strings.Contains(out, tok) {
+					at := strings.Index(out, tok)
+					fail("token-in-log-output", "%s: the %s appears in what the reference logger (level %d) wrote: ...%q...", when, what, c.Level, clipStr(out[max(0, at-200):at+len(tok)]))
+				}
+			}
+		}
 		for _, e := range env.logger.Entries() {
 			for tok, what := range tokens {
 				if sentElsewhere(elsewhere, tok) {
